@@ -37,15 +37,28 @@ CLAIMED = {
          "selector of 1..4 type codes (0 = any) matches a stack profile iff the top k type codes agree.",
          "The word implementations themselves (length, elem, relem, add, ?find, ?starts, ?ends, ?match, value, hex/dec/oct/bin, type, pos, shuffles) "
          "are NOT covered: they are overload instantiations over std::string / std::vector heaps that were not reached (DESIGN 0.4).", '0.3'),
- 'C12': ("Kernel only (clause: executions never influence one another, whether consumed fully, interleaved or abandoned): over ONE real operator "
+ 'C03': ("Kernel only, run time (clause: a name pushes the value it was bound to for the very input stack being processed): the real op_bind / op_read "
+         "(op.cc) with op_apply in its pass-through role (builtin-closure.cc), wired as build.cc wires BIND and READ, with -- between the binder and the "
+         "read -- a body yielding 0..M results per input, an ALT of two bodies, a second binder with its own body (two names live at once), or a "
+         "sub-expression context around the read: for every input count <= T, every token assignment, every split of the inputs into two re-feed epochs "
+         "and every body behaviour, each result carries exactly the value bound for the input it derives from, the body's results pass unchanged, and "
+         "there are as many results per input as the body yields. T<=2, M<=1 quick / 2 thorough.",
+         "NOT covered: name resolution at compile time (bindings::bind/find, shadowing, rebinding and unbound-name errors), blocks and closures "
+         "(uprefs, op_lex_closure, op_upread, op_apply applying a closure) -- std::map and the BLOCK case of build.cc were not encoded (DESIGN 0.4).", '0.3'),
+ 'C12': ("Three kernels. (a) Clause: executions never influence one another, whether consumed fully, interleaved or abandoned): over ONE real operator "
          "graph -- ALT (op_merge/op_tine), OR (op_or), sub-expression (op_subx) of op.cc wired as build.cc wires them, between protocol stubs -- two "
          "executions with their own state areas (scon over the graph's layout, as zw_result holds it) on the same, disjoint or overlapping input "
          "stacks, pulled alternately from either side, one after the other, with one side abandoned after one pull and torn down first, or one side "
          "suspended, each yield exactly the result sequence (values, order, depth, position) of a fresh run on the same input; an abandoned execution "
          "yields a prefix of it. 2 input stacks, <= 1 result per input and sub-expression, payload tokens symbolic; quick: 36 selected scenarios per "
-         "graph, thorough: all 720 (two sub-expressions) / 180.",
-         "NOT covered: compiling the same text twice, zw_result/zw_query_execute (they are exercised by the C14 API kernel over a stub operator), "
-         "closures and blocks (op_apply, op_tr_closure), value_seq deep copies, cache.cc / DWARF values reused across executions, three live result "
+         "graph, thorough: all 720 (two sub-expressions) / 180. (b) Values are deep-copied when stacks are copied: after stack(stack const&) or "
+         "value::clone of a sequence (length 0..2, optionally with a nested sequence of length 0..1 as first element), appending in place to the copy and to "
+         "its nested sequence -- what `add' does to its left operand -- leaves the original's length and elements unchanged, also after the copy is "
+         "destroyed. (c) The same construct compiled twice: the tree append_drop_below (parser.yy) builds for a bracket with d2 back quotes drops exactly "
+         "d2 values below TOS whatever bracket (d1 back quotes) was compiled before it in the same process (d1, d2 in 1..3; the drop is executed through the "
+         "real builtin and op_drop_below on a five-value stack).",
+         "NOT covered: other constructs compiled twice (the parser as a whole is not encoded), zw_result/zw_query_execute (they are exercised by the C14 API kernel over a stub operator), "
+         "closures and blocks (op_apply, op_tr_closure), process-global state inside word implementations (e.g. ?match), cache.cc / DWARF values reused across executions, three live result "
          "sets (DESIGN 0.3/0.4).", '0.3'),
  'C13': ("(1) layout::reserve/add_union: every series of 4 reservations (size 1..64, alignment 1..16) yields aligned, pairwise disjoint locations "
          "inside size(), add_union takes the maximum -- no two live states overlap in the shared area. (1b) pred_subx_any / scon_guard destroy the state "
@@ -82,8 +95,10 @@ CLAIMED = {
  'C18': ("Kernel only (clause: type and binding are rendered in the constant family of the file's machine): for the generic domain and the "
          "machines ARM, SPARC, PARISC, MIPS, X86_64, every STT / STB / STV code 0..15 renders -- through the real show()/most_enclosing() of "
          "value-symbol.cc over an ostream byte-sink model -- as the name /usr/include/elf.h (parsed independently) gives it for that machine, "
-         "machine-specific names only under their machine, and unnamed codes never as a known name; that machine-specific constants are never "
-         "equal to another machine's while common ones are is part of the C09 check (c09_pair/c09_triple over the same domain objects).",
+         "machine-specific names only under their machine, and unnamed codes never as a known name; and for every ordered pair of different "
+         "machines and EVERY 64-bit code, a code that elf.h names for at least one of the two machines compares unequal (and strictly ordered one way) "
+         "between the two machines' STT / STB domains, while a code below LOOS is the same constant for both (constant::operator==, !=, < with the "
+         "domains' most_enclosing).",
          "NOT covered: iteration over the symbol table (every entry once, in order, numbered from zero) and the name/value/size/label/binding/"
          "visibility accessors -- they need a model of libdwfl/libelf, which was not built.", '0.3'),
  'C20': ("Three kernels. (a) Named constants have the value/name the headers define: for each of 17 constant families (DW_TAG, DW_AT, DW_FORM, "
